@@ -22,7 +22,7 @@ theorem accepts_flag (orc : Oracle) (incl : Bool) (decls : List Decl) (i : Nat) 
     simp only [Bool.and_eq_true, beq_iff_eq] at hk
     exact hk.1
   rw [hb]
-  simp [typed, parseBool, strTrue]
+  simp [typed, parseBool, strTrue, Kind.supported, hb]
 
 /-- `--flag` and `-f` of a declared `*bool` option -/
 theorem declared_flag_valid (orc : Oracle) (incl : Bool) (decls : List Decl) (es : Entries)
